@@ -100,7 +100,9 @@ def wl_fft(ctx, idx, rng):
         if nk:
             axes = kw.get("axes", (-2, -1) if name in TWO_D else tuple(range(rank)))
             kw["s"] = tuple(max(1, shape[a] + (-1 if nk == 1 else 2)) for a in axes)
-            if "axes" not in kw:
+            if "axes" not in kw and not (name in TWO_D and rng.random() < 0.6):
+                # (for the n-D names dask.array.fft and scipy.fft disagree on which axes a bare s= refers to: always spelled out there;
+                #  the 2-D names default to the last two axes in both, so s= alone is kept for them)
                 kw["axes"] = tuple(axes)
     norm = gen.pick(rng, [None, "backward", "ortho", "forward"])
     if norm:
